@@ -5,7 +5,9 @@ the Election object (logAction wrapper, prog counter), so elections cannot
 influence each other through the harness.
 """
 import os
+import signal
 import sys
+import threading
 import traceback
 from fractions import Fraction
 
@@ -22,6 +24,18 @@ _DROOP_DIR = os.path.join(os.path.realpath(REPO), 'droop')
 
 class BudgetExceeded(BaseException):
     "rational Meek iteration budget exhausted: not explored, never a violation"
+
+
+class WallClock(BaseException):
+    """the per-count watchdog fired: inconclusive (Warren with huge multipliers and equal rankings needs ~10^8 iterations;
+    termination inside one Meek round has no useful a-priori bound) - counted as not explored, never a violation"""
+
+
+WATCHDOG_S = int(os.environ.get('VERIF_WATCHDOG', '10'))
+
+
+def _on_alarm(signum, frame):
+    raise WallClock()
 
 
 class ProgressBound(Exception):
@@ -159,11 +173,22 @@ def run(case, snap=False, renders=False, iter_budget=12, text=None, bound=True, 
     E.prog = prog
     E.logAction = logAction
     o.stage = 'count'
+    use_alarm = WATCHDOG_S > 0 and threading.current_thread() is threading.main_thread()
+    if use_alarm:
+        old_handler = signal.signal(signal.SIGALRM, _on_alarm)
+        signal.alarm(WATCHDOG_S)
     try:
-        E.count()
-        o.stage = 'done'
+        try:
+            E.count()
+            o.stage = 'done'
+        finally:
+            if use_alarm:
+                signal.alarm(0)
+                signal.signal(signal.SIGALRM, old_handler)
     except BudgetExceeded:
         o.budget_hit = True
+    except WallClock:
+        o.budget_hit = 'wall-clock'
     except Exception as exc:     # pylint: disable=broad-except
         o.exc = exc
     o.iterations = counter[0]
